@@ -393,7 +393,15 @@ def check_model(out, c, tmp):
         if bad:
             out.fail('reload-parameters@values:%s' % bad[0], '%s: %r became %r' % (bad[0], before[bad[0]], after[bad[0]]))
     out.applies('reload-spectrum')
-    if not close(np.asarray(res2[1], dtype=float), spec, rtol=1e-10, atol=1e-300):
+    # the stored parameters pass through unit conversions (an ulp); an ulp can flip the saturation cut-off decision
+    # of a layer sitting exactly at tau = 10, which is licensed to change the result by e^-10 of that layer's term
+    if c['family'] == 'transmission':
+        z_, dz_ = np.asarray(m.altitudeProfile, dtype=float), np.asarray(m.deltaz, dtype=float)
+        Rp_, Rs_ = float(m.planet.fullRadius), float(m.star.radius)
+        lic = 2.0 * float(np.sum((Rp_ + z_) * dz_)) * math.exp(-10.0) / (Rs_ * Rs_)
+    else:
+        lic = math.exp(-10.0) * float(np.max(np.abs(spec)))
+    if not close(np.asarray(res2[1], dtype=float), spec, rtol=1e-10, atol=lic + 1e-300):
         out.fail('reload-spectrum@%s,%s' % (c['family'], c['temp']), 'reloaded model gives a different spectrum (max rel %.2e)' % maxrel(res2[1], spec))
     return bool(nondefault >= 2)
 
